@@ -800,6 +800,9 @@ class Variant(productmd.composeinfo.VariantBase):
             raise ValueError("Section '%s' describes variant UID '%s' instead of '%s'" % (section, self.uid, uid))
         self.name = parser.get(section, "name")
         self.type = parser.get(section, "type")
+        if self._section != section:
+            # [addon-*] sections describe addons, [variant-*] sections everything else
+            raise ValueError("Section '%s' describes a variant of type '%s'" % (section, self.type))
 
         # child addons
         if parser.has_option(section, "addons"):
